@@ -433,6 +433,12 @@ lzma_index_prealloc(lzma_index *i, lzma_vli records)
 	if (records > PREALLOC_MAX)
 		records = PREALLOC_MAX;
 
+	// The group allocated in lzma_index_append() has to have space for
+	// at least one Record. Index decoder calls this with records == 0
+	// when the Index being decoded has no Records.
+	if (records == 0)
+		records = 1;
+
 	i->prealloc = (size_t)(records);
 	return;
 }
